@@ -1,6 +1,7 @@
 """C04 / C06: base heights - parameter binding, selection, routine internals, statistics columns."""
 from __future__ import annotations
 
+from sa.anchors import is_helper
 from sa import terms as T
 from sa.core import AnalysisError
 from sa.rules.common import effects, call_head, guard_literals
@@ -29,7 +30,7 @@ def cbh_sites(ctx, rule):
         m = p.find_method(k, mname)
         if m is None:
             raise AnalysisError(rule, f'anchor method vanished: CeiloChunk.{mname}')
-        ex = Executor(p, inline=lambda q, d: (q.startswith('ampycloud.data.') and not q.endswith('.metarize'))
+        ex = Executor(p, inline=lambda q, d: ((q.startswith('ampycloud.data.') or is_helper(p, q)) and not q.endswith('.metarize'))
                       or q == NCOMP, max_depth=6)
         s = ex.run(m, binding)
         for e in s.events:
